@@ -10,7 +10,8 @@ LEVEL = "exploration"
 RULE = ("all schema graphs G(N,d): N named object schemas x <=d out-edges of 9 kinds (ref, array-of-ref, inline object, array of "
         "inline object, additionalProperties, oneOf, anyOf, allOf parent, allOf parent + required-only member) to any node incl. "
         "itself x required flag x every declaration order x neutral / prefix-related names; each document is loaded through the "
-        "real loader and compared with an independent reference resolver. non-trivial = distinct graphs containing a reference cycle")
+        "real loader and compared with an independent reference resolver; plus wide documents (170 schemas per edge kind followed by deep probes) and "
+        "models with colliding / styled property names. non-trivial = distinct graphs containing a reference cycle")
 ASSUMPTIONS = [
     "the reference resolver (mc/ref/schema.py) defines the expected field sets: allOf = union of the resolved members' "
     "properties and required lists",
@@ -21,7 +22,37 @@ BOUND = {"quick": "G(2,1) all 9 kinds x required flag; G(3,1) over {ref,arr,map,
          "thorough": "G(2,1), G(3,1) all 9 kinds (required flag on ref only), G(2,2) all 9 kinds without required flag; all orders, both name menus"}
 
 
+def wide_doc(kind, width=170):
+    """`width` independent schemas that each use one edge kind, followed by probes that are nested three levels deep and by a
+    schema reached through a two-step reference chain declared top-down: anything that accumulates per schema (depth, caches)
+    shows up in the probes"""
+    names = ["Leaf"]
+    schemas = {"Leaf": {"type": "object", "required": ["v"], "properties": {"v": {"type": "integer"}, "w": {"type": "string"}}}}
+    for i in range(width):
+        props = {"v": {"type": "integer"}, "w": {"type": "string"}}
+        if kind in graphs.ALLOF_KINDS:
+            schemas[f"W{i}"] = {"allOf": [graphs.R("Leaf"), {"type": "object", "properties": {f"x{i}": {"type": "string"}}}]}
+        else:
+            props["e"] = graphs.edge_schema(kind, "Leaf")
+            schemas[f"W{i}"] = {"type": "object", "required": ["v"], "properties": props}
+    schemas["Probe"] = {"type": "object", "properties": {"a": {"type": "object", "properties": {"b": {"type": "object", "properties": {
+        "c": {"type": "object", "properties": {"d": {"type": "integer"}}}}}}}}}
+    schemas["LateHolder"] = {"type": "object", "properties": {"person": graphs.R("LatePerson")}}
+    schemas["LatePerson"] = {"type": "object", "properties": {"address": graphs.R("LateAddress"), "name": {"type": "string"}}}
+    schemas["LateAddress"] = {"type": "object", "required": ["city"], "properties": {"city": {"type": "string"}, "zip": {"type": "string"}, "floor": {"type": "integer"}}}
+    return {"openapi": "3.0.3", "info": {"title": "W", "version": "1"}, "paths": {}, "components": {"schemas": schemas}}
+
+
 def cases(tier, seed):
+    from ..space import fields as _fields
+
+    extra = [{"kind": "wide", "edge": k} for k in graphs.ALL_KINDS]
+    fm = _fields.collisions(tier) + [c for c in _fields.singles(tier) if c["fields"][0]["kind"] == "string"]
+    extra += [{"kind": "fieldmodels", "models": fm[i:i + 8]} for i in range(0, len(fm), 8)]
+    return extra + graph_cases(tier, seed)
+
+
+def graph_cases(tier, seed):
     def mark(cs, code):
         for c in cs:
             c["code"] = code
@@ -117,9 +148,72 @@ def compare(level, case, exp, got, out):
                 add(clause, disc, name, f"{detail}; expected {e['fields']} got {g['fields']}")
 
 
+def run_other(case):
+    """wide documents and field-name models: expected field sets from the reference resolver vs IR and emitted code"""
+    import os
+
+    from ..space import fields as _fields
+
+    if case["kind"] == "wide":
+        doc = wide_doc(case["edge"])
+        label = f"wide|{case['edge']}|170 schemas"
+    else:
+        doc = _fields.pack_doc(case["models"])
+        label = "fieldmodels|" + ";".join(_fields.describe(m) for m in case["models"])
+    exp = refschema.expected(doc)
+    found = []
+    seen = set()
+
+    def cmp(level, got):
+        for name, e in exp.items():
+            if e.get("kind") != "object":
+                continue
+            if case["kind"] == "fieldmodels" and not name.startswith("M"):
+                continue
+            g = got.get(name, {"count": 0})
+            where = f"{name} in {label[:200]}"
+            key = f"{label[:120]}|{name}"
+
+            def add(clause, disc, msg):
+                sig = f"C02|{level}|{clause}|{disc}"
+                if (sig, key) not in seen:
+                    seen.add((sig, key))
+                    found.append({"sig": sig, "key": key, "msg": f"{msg} | {where}"})
+
+            if g["count"] == 0:
+                add("schema-missing", "no model for a declared schema", "missing")
+                continue
+            if g.get("kind") != "object":
+                add("kind-mismatch", f"object->{observe.kind_name(g.get('kind'))}", str(g.get("kind")))
+                continue
+            if e["fields"] and not g["fields"]:
+                add("fields-lost", "model has zero fields", "no fields")
+                continue
+            for clause, disc, detail in observe.diff_fields(e["fields"], g["fields"]):
+                add(clause, disc, f"{detail}; expected {e['fields']} got {g['fields']}")
+
+    try:
+        ir = sandbox.load_ir(doc)
+    except Exception as e:
+        return {"findings": [{"sig": f"C02|ir|load-failed|{type(e).__name__}", "key": label[:150], "msg": f"{str(e)[:200]} | {label[:200]}"}], "outcome": "rejected"}
+    cmp("ir", observe.ir_manifest(ir, doc))
+    with sandbox.scratch() as d:
+        root = os.path.join(d, "proj")
+        files, err = sandbox.generate(doc, root)
+        if err is None:
+            got, idx = observe.code_manifest(os.path.join(root, "cli"), doc)
+            for fn, msg in idx.errors:
+                found.append({"sig": f"C02|code|model-file-unparsable|{msg}", "key": f"{label[:120]}|{fn}", "msg": f"{fn} | {label[:200]}"})
+            cmp("code", got)
+    return {"findings": found, "evals": 2, "nontrivial": label[:200], "outcome": case["kind"] + (":finding" if found else ":ok"),
+            "sample": {"case": label[:200], "schemas": len(exp)}}
+
+
 def run_case(case):
     import os
 
+    if case.get("kind") in ("wide", "fieldmodels"):
+        return run_other(case)
     doc = graphs.doc_of(case)
     cyc = graphs.has_cycle(case["nodes"])
     found = []
